@@ -61,6 +61,17 @@ CLAIMED["C33"] = _simple(["SigBlock", "SigBlockMC", "SigBlock_Trace"],
     "SigBlock_Trace, which decodes the written bytes with the TLA+ reader.",
     "Trusted: TLC, the zip container from Python's zipfile with the block spliced in before the central directory. Well-formed blocks only (malformed ones belong to C35); numbers < 2^31.",
     "TLA+ codec + lazy-loading query model checked with TLC (incl. expected counterexamples of implementation-shaped variants); histories replayed on real objects; answers validated by a TLA+ trace spec", "4/C33")
+CLAIMED["C21"] = _simple(["Alu", "AluMC", "DalvikMachine", "DalvikMachineMC", "DalvikMachine_Trace"],
+    "Alu.tla defines two's complement add / sub / mul / div / rem / shifts / comparisons / extensions on little-endian byte sequences (TLC integers have 32 bits); AluMC checks them against TLC's integers "
+    "on small values and against algebraic laws at the int and long boundaries (MIN / -1, wrap-around, truncating division). DalvikMachine.tla is the integer part of the Dalvik machine (one Step per "
+    "instruction: moves, constants in all encodings, int / long arithmetic in 3-register, 2addr, lit8, lit16 forms, conversions, cmp-long, if-tests, goto, packed / sparse switch, returns). DalvikMachineMC "
+    "runs every operation as a one-operation method on all tuples of 6 (12) boundary values (TLC: type invariant, halting). Each enumerated method is assembled into a DEX file, decompiled by DAD, compiled "
+    "by javac and run in a JVM on the same tuples; so are random structured methods (assignments in every instruction form, if/else with && and ||, nested counted loops, switches, early returns). "
+    "DalvikMachine_Trace executes each method on each tuple one instruction per TLC step and compares the outcome (value or exception class) with the JVM's; the harness' own Python interpreter must agree "
+    "with the machine on result and step count (machinery failure otherwise).",
+    "Trusted: vf/asm.py + vf/dexgen.py (abstract instruction -> DEX), javac 17 / the JVM as the meaning of Java source, TLC. Known findings: shapes for which DAD emits source javac rejects, identified by "
+    "the class of the compiler message; every semantic difference is a violation.",
+    "TLA+ Dalvik machine over byte-sequence arithmetic, model-checked with TLC; enumerated and random methods decompiled, compiled with javac and executed; executions validated step by step by a TLA+ trace spec", "4/C21")
 CLAIMED["C35"] = _simple(["NullTerm", "ResHeader", "ChunkWalk", "ParseRun_Trace"],
     "Three loop shapes of the parsers are transition systems with a termination measure: NullTerm (read_null_terminated_string: chunks of 128 bytes until a zero byte; buffer abstracted to length, start and "
     "position of the first zero), ResHeader (ARSCHeader.__init__ at byte level, incl. the retry loop skipping dummy bytes) and ChunkWalk (the chunk loops of AXMLParser / ARSCParser over ResHeader's "
